@@ -5,6 +5,7 @@ package harness
 import (
 	"fmt"
 	"math"
+	"reflect"
 	"testing"
 
 	"github.com/advancedclimatesystems/gonnx/onnx"
@@ -105,6 +106,14 @@ func refMatMul(a []float64, sa []int, b []float64, sb []int) (dotRef, bool) {
 
 // genDotValues: operands for dot products: small integers, uniform values, scaled powers of two.
 func genDotValues(rt *rapid.T, n int, label string) []float64 {
+	if n > 2048 {
+		base := genDotValues(rt, 257, label)
+		out := make([]float64, n)
+		for i := range out {
+			out[i] = base[(i*7919+i/257)%257]
+		}
+		return out
+	}
 	out := make([]float64, n)
 	kind := rapid.IntRange(0, 3).Draw(rt, label+"Kind")
 	for i := range out {
@@ -135,6 +144,7 @@ type c04Case struct {
 	ref     dotRef
 	feature string
 	kfClass string // known-finding input class this case falls in ("" = none)
+	bigInts bool   // integer operands beyond the exactly representable float range
 }
 
 func (c c04Case) String() string {
@@ -175,6 +185,11 @@ func c04Gen(rt *rapid.T) c04Case {
 		common := make([]int, nbatch)
 		for i := range common {
 			common[i] = rapid.IntRange(1, 3).Draw(rt, "batch")
+		}
+		if nbatch > 0 && rapid.IntRange(0, 99).Draw(rt, "manyMatrices") == 0 {
+			// more than a thousand matrices in one call (thresholds of blocked / parallel batch loops)
+			common[rapid.IntRange(0, nbatch-1).Draw(rt, "manyAt")] = rapid.SampledFrom([]int{1025, 1030, 1100, 2049}).Draw(rt, "many")
+			m, k, n = min(m, 3), min(k, 3), min(n, 3)
 		}
 		mk := func(r int, l string) []int {
 			if r <= 2 {
@@ -217,6 +232,24 @@ func c04Gen(rt *rapid.T) c04Case {
 			}
 		}
 		A, B := toDtype(c.dt, sa, av), toDtype(c.dt, sb, bv)
+		if isInt(c.dt) && rapid.IntRange(0, 2).Draw(rt, "bigInts") == 0 {
+			// integers beyond 2^24 / 2^53 (not exactly representable as floats of the same width)
+			big := []int64{1<<53 + 1, 100000001, 1<<31 - 1, 1<<24 + 1, 3, 1, 0, 1<<40 + 7}
+			mkBig := func(n int, l string) any {
+				s := reflect.MakeSlice(reflect.SliceOf(c.dt.Type), n, n)
+				for i := 0; i < n; i++ {
+					v := rapid.SampledFrom(big).Draw(rt, l)
+					if s.Index(i).CanInt() {
+						s.Index(i).SetInt(v)
+					} else {
+						s.Index(i).SetUint(uint64(v))
+					}
+				}
+				return s.Interface()
+			}
+			A, B = mkT(sa, mkBig(prod(sa), "bigA")), mkT(sb, mkBig(prod(sb), "bigB"))
+			c.bigInts = true
+		}
 		c.ins = []tensor.Tensor{A, B}
 		c.node = mkNode("MatMul", nil, []string{"y"})
 		if c.valid {
@@ -514,6 +547,24 @@ func c04Judge(c c04Case, res opResult) string {
 	if out.Dtype() != wantDt {
 		return fmt.Sprintf("dtype %v, want %v", out.Dtype(), wantDt)
 	}
+	if isInt(out.Dtype()) && c.op == "MatMul" {
+		// exact wrap-around integer arithmetic on bit patterns
+		want, ok := refMatMulBits(bitsAll(c.ins[0]), c.ins[0].Shape(), bitsAll(c.ins[1]), c.ins[1].Shape())
+		if !ok {
+			return "harness: integer reference undefined"
+		}
+		mask := ^uint64(0)
+		if elemSize(out.Dtype()) == 4 {
+			mask = 0xffffffff
+		}
+		g := bitsAll(out)
+		for i := range g {
+			if g[i]&mask != want[i]&mask {
+				return fmt.Sprintf("element %d: got %d, exact integer result %d", i, int64(g[i]), int64(want[i]))
+			}
+		}
+		return ""
+	}
 	if isInt(out.Dtype()) {
 		g := f64s(out)
 		for i := range g {
@@ -580,4 +631,39 @@ func init() {
 		r := runOp("LinearRegressor", mkNode("LinearRegressor", nil, nil, attrFs("coefficients", 1, 2)), []tensor.Tensor{mkT([]int{1, 2}, []float32{1, 1})})
 		return !r.ok(), "LinearRegressor(coefficients=[1,2], no intercepts) -> " + r.String()
 	}
+}
+
+// refMatMulBits: numpy.matmul over 64-bit patterns with wrap-around arithmetic.
+func refMatMulBits(a []uint64, sa []int, b []uint64, sb []int) ([]uint64, bool) {
+	fa, fb := make([]float64, len(a)), make([]float64, len(b))
+	shape, ok := refMatMul(fa, sa, fb, sb) // shapes only
+	if !ok {
+		return nil, false
+	}
+	pa, pb := cloneInts(sa), cloneInts(sb)
+	if len(pa) == 1 {
+		pa = []int{1, pa[0]}
+	}
+	if len(pb) == 1 {
+		pb = []int{pb[0], 1}
+	}
+	m, k, n := pa[len(pa)-2], pa[len(pa)-1], pb[len(pb)-1]
+	ba, bb := pa[:len(pa)-2], pb[:len(pb)-2]
+	batch, _ := bcastShape(ba, bb)
+	var out []uint64
+	for bi := 0; bi < prod(batch); bi++ {
+		bidx := unravel(bi, batch)
+		oa, ob := bcastIndex(bidx, ba)*m*k, bcastIndex(bidx, bb)*k*n
+		for i := 0; i < m; i++ {
+			for j := 0; j < n; j++ {
+				var s uint64
+				for t := 0; t < k; t++ {
+					s += a[oa+i*k+t] * b[ob+t*n+j]
+				}
+				out = append(out, s)
+			}
+		}
+	}
+	_ = shape
+	return out, true
 }
